@@ -2,6 +2,14 @@ from vf.sx.ob import SX
 
 A = "src/biotite/sequence/align/"
 OBLIGATIONS = [
+    SX("sx_cigar_text", "sx_c11_text", "ob_cigar_text", cls="S", quick=300, thorough=1500, parts={"quick": 4, "thorough": 6},
+       functions=[A + "cigar.py:_cigar_from_op_tuples", A + "cigar.py:_op_tuples_from_cigar", A + "cigar.py:CigarOp.from_cigar_symbol/to_cigar_symbol"],
+       stubs=["numpy inside cigar.py/alignment.py -> list-backed shim for zeros/full/array(dtype=int)", "operation codes are case-split before the enum / symbol-table lookups (hash of a symbolic value)"],
+       bounds="writer -> parser: 1..2 (thorough 3) operations, every operation code, repeat counts SYMBOLIC in 0..9999 (decimal rendering and parsing of symbolic integers): same tuples back; parser on symbolic text of length 2..3 (4) over digits, the nine operation symbols and four foreign characters: on every well-formed text (<digits><op>)* the tuples equal the digit-run values and symbols, no exception"),
+    SX("sx_gapped", "sx_c11_text", "ob_gapped", cls="S", quick=300, thorough=1500, parts={"quick": 3, "thorough": 5},
+       functions=[A + "alignment.py:Alignment.trace_from_strings", A + "alignment.py:Alignment._gapped_str/get_gapped_sequences"],
+       stubs=["numpy -> list-backed shim", "sequences -> list of one-character symbolic strings"],
+       bounds="2 sequences x 3..4 (5) columns and 3 sequences x 3 (4) columns, EVERY character symbolic over '-' and the 20 amino acid letters: trace entry = -1 at a gap, else the number of non-gap characters before it; the gapped strings rebuilt from that trace and the gap-free sequences equal the input"),
     SX("sx_alignment", "sx_c11", "ob_alignment", cls="E", quick=300, thorough=1800, parts={"quick": 7, "thorough": 9},
        functions=[A + "alignment.py:Alignment.get_gapped_sequences/trace_from_strings/__getitem__, get_codes, get_symbols, get_sequence_identity, get_pairwise_sequence_identity, score, find_terminal_gaps, remove_terminal_gaps, remove_gaps"],
        bounds="every trace of 1..4 (thorough 1..5) columns over 2 sequences and 1..3 (1..4) columns over 3 sequences (every non-empty advance pattern per column): all conversions and helpers vs column-by-column recomputation; score with linear/affine penalties and both terminal settings"),
